@@ -7,7 +7,8 @@ from ..core import AnalysisError, u, walk_local, ancestors, FuncNode
 from ..lib import (construct, std_facts, calls_of_node, copy_kind, at_least,
                    returns_of)
 from ..mayraise import MayRaise
-from .common import ENTER, EXIT, nodes_calling, scope_entry, instance_state
+from .common import (ENTER, EXIT, nodes_calling, scope_entry, instance_state, scope_who,
+                     scope_copy_out, stack_discipline)
 
 
 def run(ctx):
@@ -143,32 +144,17 @@ def run(ctx):
 
   instance_state(ctx, 'C09.thread', 'config._ScopeManager', {'_active_scopes'}, 'all scope state must live in the one per-thread stack')
   # ---- C09.copy-out
-  for pname in ('current_scope', 'active_scopes'):
-    pm = c.methods.get(pname)
-    if pm is None:
-      raise AnalysisError('anchor _ScopeManager.%s vanished' % pname)
-    rets = returns_of(pm)
-    kinds = [copy_kind(r.value) for r in rets if r.value is not None]
-    ok = bool(kinds) and all(at_least(k, 'SHALLOW') for k in kinds)
-    ctx.check(ok, 'C09.copy-out', ccon + '.' + pname,
-              'returns a copy (%s) of the live frame' % kinds,
-              'returns the live stack frame itself (%s): callers (config_scope extends the result) would mutate the '
-              'enclosing scope in place' % [u(r.value) for r in rets], pm.loc(), instance=pname)
+  scope_copy_out(ctx, 'C09.copy-out')
   cs = ctx.func('config.current_scope')
   rets = returns_of(cs)
   ok = len(rets) == 1 and u(rets[0].value) in ('_SCOPE_MANAGER.current_scope',) or \
       (len(rets) == 1 and at_least(copy_kind(rets[0].value), 'SHALLOW'))
   ctx.check(ok, 'C09.copy-out', construct(cs), 'current_scope() hands out the manager\'s copy',
             'current_scope() returns %s' % [u(r.value) for r in rets], cs.loc())
+  stack_discipline(ctx, 'C09.pair')
 
   # ---- C09.who
-  for q, label in ((ENTER, 'push'), (EXIT, 'pop')):
-    sites = prog.call_sites_of(q)
-    outside = [(cf, cn) for cf, cn in sites if cf.qual != 'config.config_scope']
-    ctx.check(not outside and sites, 'C09.who', 'gin/config.py::_ScopeManager.' + q.rsplit('.', 1)[1],
-              'scope %s is called only from config_scope (%d site)' % (label, len(sites)),
-              'scope %s is called outside config_scope: %s' % (label, [cf.loc(cn) for cf, cn in outside]),
-              outside[0][0].loc(outside[0][1]) if outside else f.loc(), sites=len(sites), instance=label)
+  scope_who(ctx, 'C09.who')
   # direct writes to the stack attribute from outside the class
   raw = []
   for fn in ctx.ix.all_funcs():
@@ -180,13 +166,3 @@ def run(ctx):
   ctx.check(not raw, 'C09.who', ccon, 'the stack attribute is touched only by _ScopeManager methods',
             'the stack attribute is accessed outside _ScopeManager at %s' % raw, raw[0] if raw else cloc,
             instance='raw-access')
-  # every use of config_scope(...) in the package is a with-item
-  uses = prog.call_sites_of('config.config_scope')
-  bad = []
-  for cf, cn in uses:
-    p = cn.parent
-    if not isinstance(p, ast.withitem):
-      bad.append(cf.loc(cn))
-  ctx.check(not bad, 'C09.who', con, 'all %d in-package uses of config_scope are `with` items' % len(uses),
-            'config_scope(...) used outside a with statement at %s' % bad, bad[0] if bad else f.loc(),
-            sites=len(uses), instance='with-only')
